@@ -1,5 +1,6 @@
 """C09 — ENABLE_PEDANTIC switch: op sequences (setenv / unsetenv / enable_pedantic / disable_pedantic / obtain a decorator /
-decorate / apply / call) run against the real library and against the Lean state machine + specification."""
+decorate / apply / decorate the same function object again / call) run against the real library and against the Lean state
+machine + specification."""
 import os, sys, io, itertools, json, contextlib, tempfile, shutil, types, asyncio, inspect
 
 RULE = ('exhaustive: every op sequence of length <= 4 over the reduced alphabet {unsetenv, enable_pedantic, disable_pedantic, the seven '
@@ -8,13 +9,19 @@ RULE = ('exhaustive: every op sequence of length <= 4 over the reduced alphabet 
         'decorators, apply the first one obtained, call the latest result}; the full grid initial value (unset, "0", "1" + 9 other strings) x 11 decorators '
         '(for_all_methods with pedantic / pedantic_require_docstring / trace / timer / a harness decorator) x 4 target shapes x every '
         'spelling x {no toggle, opposite toggle} x 3 call kinds; the factory grid (decorator obtained, switch toggled, applied, toggled, '
-        'called); thorough: also every sequence of length 5 over {enable, disable, the seven decorators, call latest positionally}; plus seeded random sequences of 3..30 ops (600 / 100000) over all of the above, other strings and near-miss handle indices.  Every target is a fresh object from a real .py file; the variable is set '
+        'called); decorating the SAME function object again (redecorate / reapply: f2 = pedantic(f); ...; f3 = pedantic(f)): every sequence of length <= 4 '
+        'over {enable, disable, unsetenv, pedantic / pedantic_require_docstring on a fresh function, the same two on the first / latest function '
+        'object again (spellings rotating), obtain pedantic(), apply it to the first function object again, call first / latest result} from an unset variable (length <= 3: '
+        'also from "0" and "1"), and the grid initial value x first decorator x spelling x 4 function shapes x {no toggle, opposite toggle} x second decorator x '
+        'spelling, with all call kinds on both results, a second toggle and a third decoration; thorough: also every sequence of length 5 over {enable, disable, the seven decorators, call latest positionally}; plus seeded random sequences of 3..30 ops (600 / 100000) over all of the above, other strings and near-miss handle indices (and re-decoration of class objects, which the model does not describe: `bad` on both sides).  Every target is a fresh object from a real .py file unless the op says "the same object again"; the variable is set '
         'per sequence and restored afterwards.  non-trivial = the sequence calls a live decoration result')
 EXHAUSTIVE = {'quick': True, 'thorough': True}
 ASSUMPTIONS = ['single-threaded: nothing else writes os.environ["ENABLE_PEDANTIC"] between the read in a decorator and its return',
                'targets are plain (async) functions and classes whose members are methods / properties; "checked" is observed as: a '
                'positional call or a wrongly typed keyword raises a PedanticException (pedantic family), stdout is written (trace/timer), '
                'the harness decorator recorded the call (for_all_methods with a foreign decorator)',
+               'decorating the same object again is modelled (and claimed) for function objects: the function object is left as it is by its decorators; '
+               'for_all_methods changes a class in place, so handing the same class object in again is answered `bad` by model and runner alike',
                'values of the variable other than unset/"0"/"1" are run and compared with the model (the code treats them as "0") but are '
                'not claimed by the property']
 TRUSTED = ['that pedantic wrappers reject positional / wrongly typed calls, that trace/timer wrappers print and that for_all_methods returns '
@@ -102,6 +109,16 @@ def op_factory(d, form):
     return ['factory', d], {'form': form}
 
 
+def op_redecorate(d, h, form):
+    """apply d (spelled `form`) to the very object the h-th decoration was applied to"""
+    return ['redecorate', d, h], {'form': form}
+
+
+def op_reapply(k, h):
+    """apply the k-th decorator obtained earlier to the very object the h-th decoration was applied to"""
+    return ['reapply', k, h], None
+
+
 def build(env, pairs, origin):
     return mk(env, [p[0] for p in pairs], [p[1] for p in pairs], origin)
 
@@ -152,6 +169,65 @@ def resolve_factory(seq):
     return pairs
 
 
+AGAIN_SYMS = [('env', 'enable'), ('env', 'disable'), ('env', 'unsetenv'), ('deco', 'pedantic'), ('deco', 'pedantic_require_docstring'),
+              ('re', 'pedantic', 'first'), ('re', 'pedantic_require_docstring', 'last'), ('re', 'pedantic', 'last'),
+              ('fac', 'pedantic', 'call'), ('reapply', 'first'), ('call', 'first'), ('call', 'last')]
+
+
+def resolve_again(seq, rot=0):
+    """'first' / 'last' = the object the first / latest decoration was applied to (no decoration yet: index 0, `bad` on both sides);
+    spellings rotate with the position so that every spelling meets every situation"""
+    pairs, nh, nf = [], 0, 0
+    for i, s in enumerate(seq):
+        if s[0] == 'env':
+            pairs.append(([s[1]], None))
+        elif s[0] == 'deco':
+            forms = forms_direct(s[1])
+            pairs.append(op_decorate(s[1], 'fn' if (i + rot) % 3 else 'afn', forms[(i + rot) % len(forms)]))
+            nh += 1
+        elif s[0] == 're':
+            forms = forms_direct(s[1])
+            pairs.append(op_redecorate(s[1], 0 if (s[2] == 'first' or nh == 0) else nh - 1, forms[(i + rot + 1) % len(forms)]))
+            nh += 1
+        elif s[0] == 'fac':
+            pairs.append(op_factory(s[1], s[2]))
+            nf += 1
+        elif s[0] == 'reapply':
+            pairs.append(op_reapply(0, 0))
+            nh += 1
+        else:
+            h = 0 if (s[1] == 'first' or nh == 0) else nh - 1
+            pairs.append((['call', h, 'positional' if i % 2 else 'wrongType'], None))
+    return pairs
+
+
+def again_grid_cases():
+    """decorate a function, (toggle), decorate the same function object again: every pair of decorators / spellings / initial values"""
+    out = []
+    for env in CLAIMED + ['true']:
+        for d0 in FN_DECOS:
+            for form0 in forms_direct(d0):
+                for shape in FN_SHAPES:
+                    for toggle in (None, opposite(env)):
+                        for d1 in FN_DECOS:
+                            for form1 in forms_direct(d1):
+                                pairs = [op_decorate(d0, shape, form0)]
+                                if toggle:
+                                    pairs.append((toggle, None))
+                                pairs.append(op_redecorate(d1, 0, form1))
+                                pairs += [(['call', 1, k], None) for k in KINDS] + [(['call', 0, 'positional'], None)]
+                                now = env if not toggle else ('1' if toggle == ['enable'] else '0')
+                                pairs.append((opposite(now), None))
+                                pairs.append(op_redecorate(d0, 1, form0))      # a third time, through the second handle's target (the same object)
+                                pairs += [(['call', 2, 'wrongType'], None), (['call', 1, 'wrongType'], None), (['call', 0, 'wrongType'], None)]
+                                pairs.append(op_factory(d1, forms_factory(d1)[0]))
+                                pairs.append((opposite('1' if opposite(now) == ['enable'] else '0'), None))
+                                pairs.append(op_reapply(0, 0))
+                                pairs += [(['call', 3, 'positional'], None), (['call', 2, 'positional'], None)]
+                                out.append(build(env, pairs, 'again-grid'))
+    return out
+
+
 def opposite(env):
     """an op that flips what the code reads from `env`"""
     return ['disable'] if (env is None or env == '1') else ['enable']
@@ -196,12 +272,27 @@ def factory_grid_cases():
     return out
 
 
-def random_case(rng, maxlen=30, origin='random'):
+def random_case(rng, maxlen=30, origin='random', again=0.12):
     vals = [None, '0', '1'] * 4 + OTHER_VALUES + ['0 ', 'false', '١', '1\t', 'enable']
     env = rng.choice(vals)
     pairs, nh, nf, fdecos = [], 0, 0, []
+    fn_handles, cls_handles = [], []          # handles whose target is a function / a class
     n = rng.randint(3, maxlen)
     for _ in range(n):
+        r = rng.random()
+        if r < again and (fn_handles or cls_handles):
+            # the same object again; mostly a function (classes / handles that do not exist: `bad` on both sides)
+            q = rng.random()
+            h = nh if q < 0.03 else (rng.choice(cls_handles) if (cls_handles and q < 0.08) or not fn_handles else rng.choice(fn_handles))
+            if nf and rng.random() < 0.3:
+                pairs.append(op_reapply(rng.randrange(nf), h))
+            else:
+                d = rng.choice(FN_DECOS) if rng.random() < 0.93 else rng.choice(CLS_DECOS)
+                pairs.append(op_redecorate(d, h, rng.choice(forms_direct(d))))
+            if h in fn_handles:
+                fn_handles.append(nh)
+            nh += 1
+            continue
         r = rng.random()
         if r < 0.30:
             k = rng.choice(['enable', 'disable', 'unsetenv', 'setenv', 'enable', 'disable'])
@@ -209,6 +300,7 @@ def random_case(rng, maxlen=30, origin='random'):
         elif r < 0.52:
             d = rng.choice(ALL_DECOS)
             pairs.append(op_decorate(d, rng.choice(shapes_for(d)), rng.choice(forms_direct(d))))
+            (fn_handles if d in FN_DECOS else cls_handles).append(nh)
             nh += 1
         elif r < 0.60:
             d = rng.choice(ALL_DECOS)
@@ -218,6 +310,7 @@ def random_case(rng, maxlen=30, origin='random'):
         elif r < 0.70 and nf:
             k = rng.randrange(nf)
             pairs.append(op_apply(k, rng.choice(shapes_for(fdecos[k]))))
+            (fn_handles if fdecos[k] in FN_DECOS else cls_handles).append(nh)
             nh += 1
         elif nh:
             # near miss on the handle index now and then (one past the end)
@@ -244,7 +337,18 @@ def cases(rng, tier):
                 out.append(build(None, resolve_factory(seq), f'exhaustive-factory-{n}'))
     out += grid_cases()
     out += factory_grid_cases()
+    # the same function object decorated again
+    for n in range(2, 5):
+        for k, seq in enumerate(itertools.product(AGAIN_SYMS, repeat=n)):
+            if any(s[0] == 'deco' for s in seq) and any(s[0] in ('re', 'reapply') for s in seq):
+                for env in ([None] if n == 4 else CLAIMED):
+                    out.append(build(env, resolve_again(seq, k), f'exhaustive-again-{n}'))
+    out += again_grid_cases()
     if tier == 'thorough':
+        syms5 = [s for s in AGAIN_SYMS if s not in (('env', 'unsetenv'), ('re', 'pedantic', 'last'), ('call', 'first'))]
+        for k, seq in enumerate(itertools.product(syms5, repeat=5)):
+            if any(s[0] == 'deco' for s in seq) and any(s[0] in ('re', 'reapply') for s in seq) and any(s[0] == 'call' for s in seq):
+                out.append(build(None, resolve_again(seq, k), 'exhaustive-again-5'))
         # length 5 over {enable, disable, the seven decorators, call the latest result positionally}
         syms5 = [s for s in syms if s not in (('env', 'unsetenv'), ('call', 'first', 'positional'), ('call', 'last', 'good'))]
         for seq in itertools.product(syms5, repeat=5):
@@ -256,7 +360,8 @@ def cases(rng, tier):
 
 
 def search(rng, tier, near):
-    return [random_case(rng, maxlen=8, origin='search') for _ in range(3000)] + [random_case(rng, origin='search') for _ in range(1500)]
+    return ([random_case(rng, maxlen=8, origin='search') for _ in range(3000)] + [random_case(rng, origin='search') for _ in range(1500)]
+            + [random_case(rng, maxlen=10, origin='search-again', again=0.4) for _ in range(3000)])
 
 
 # ------------------------------------------------------------------ the implementation side
@@ -330,8 +435,7 @@ class Impl:
             return p.for_all_methods(i) if form == 'plain' else p.for_all_methods(decorator=i)
         return getattr(p, d)
 
-    def decorate(self, shape, apply):
-        t = self.fresh(shape)
+    def decorate(self, t, shape, apply):
         before = dict(t.__dict__)
         try:
             res = apply(t)
@@ -368,6 +472,7 @@ class Impl:
         c, xs = case['c'], case['x']['ops']
         saved = os.environ.get(NAME)
         handles, factories, obs = [], [], []
+        targets = []          # the object each decoration was applied to (parallel to `handles`)
         try:
             if c['env'] is None:
                 os.environ.pop(NAME, None)
@@ -388,9 +493,18 @@ class Impl:
                         factories.append((op[1], self.factory(op[1], x['form']))); obs.append(['none'])
                     except Exception as e:
                         factories.append((op[1], None)); obs.append(['error', type(e).__name__])
-                elif tag in ('decorate', 'apply'):
-                    shape = x['shape']
-                    if tag == 'decorate':
+                elif tag in ('decorate', 'apply', 'redecorate', 'reapply'):
+                    if tag in ('decorate', 'apply'):
+                        shape = x['shape']
+                        t = self.fresh(shape)
+                    else:
+                        # the very object an earlier decoration was applied to; only function objects (a class is changed in place)
+                        prev = targets[op[2]] if op[2] < len(targets) else None
+                        if prev is None or prev[1] in CLS_SHAPES:
+                            handles.append(None); targets.append(None); obs.append(['bad']); continue
+                        t, shape = prev
+                    targets.append((t, shape))
+                    if tag in ('decorate', 'redecorate'):
                         d = op[1]
                         ap = lambda t, d=d, form=x['form']: self.direct(d, form, t)
                     else:
@@ -399,8 +513,8 @@ class Impl:
                         d, fac = factories[op[1]]
                         ap = lambda t, fac=fac: fac(t)
                     if (d in FN_DECOS) != (shape in FN_SHAPES):
-                        handles.append(None); obs.append(['bad']); continue      # outside the domain: never generated
-                    h, o = self.decorate(shape, ap)
+                        handles.append(None); obs.append(['bad']); continue      # outside the domain
+                    h, o = self.decorate(t, shape, ap)
                     handles.append(h); obs.append(o)
                 elif tag == 'call':
                     if op[1] >= len(handles) or handles[op[1]] is None:
@@ -465,11 +579,13 @@ def judge(case, impl, model):
     en = model.get('enabledNow', [])
     deco_en = []
     for i, (op, o) in enumerate(zip(ops, mo)):
-        if op[0] in ('decorate', 'apply'):
+        if op[0] in ('decorate', 'apply', 'redecorate', 'reapply'):
             deco_en.append(en[i] if i < len(en) else None)
+            if op[0] in ('redecorate', 'reapply'):
+                tags.add('A')
             tags.add({'decorated': 'I' if (o[1:] == [True, True]) else ('W' if o[1:] == [False, True] else 'C'),
                       'decoRaised': 'R', 'bad': 'B', 'switchError': 'S'}.get(o[0], '?'))
-            if op[0] == 'apply':
+            if op[0] in ('apply', 'reapply'):
                 tags.add('F')
         elif op[0] == 'call':
             tags.add('b' if o[0] != 'called' else ('r' if o[1] else 'p' if o[2] else 'm' if o[3] else 'n'))
